@@ -1392,6 +1392,7 @@ def duplicate_pair_rule(M, R):
             args = [a for a in e.get('args', []) if a is not None]
             good = False
             if len(args) == 2:
+                args = [_resolve_local(fn, a, set(it_d)) for a in args]      # named copies: `const auto pair_end = it + 2;`
                 a0, a1 = fn.sn(args[0]), fn.sn(args[1])
                 hops = 0
                 while a0 is not None and a0.get('k') == 'construct' and a0.get('args') and hops < 3:
@@ -1842,14 +1843,39 @@ def reset_rules(M, R):
         R.check(ok, 'A2-reset-undoes-tentative-classification', key, rs.loc(n['id']) if n is not None else rs.site, msg)
 
 
+def _reassigned(fn, d):
+    """Local variable d is written after its declaration (assignment, compound assignment, ++/--)."""
+    cache = getattr(fn, '_c10_reassigned', None)
+    if cache is None:
+        cache = set()
+        for n in fn.all_nodes():
+            t = None
+            if n.get('k') == 'assign':
+                t = n['lhs']
+            elif n.get('k') == 'unop' and n.get('op') in ('++', '--'):
+                t = n['sub']
+            elif n.get('k') == 'call' and n.get('op') in ('=', '+=', '-=', '++', '--') and n.get('recv') is not None:
+                t = n['recv']
+            x = fn.sn(t) if t is not None else None
+            if x is not None and x.get('k') == 'var':
+                cache.add(x['d'])
+        fn._c10_reassigned = cache
+    return d in cache
+
+
 def _resolve_local(fn, nid, keep):
-    """Follow named locals to their initialiser (not the variables in `keep`)."""
+    """Follow named locals with a single definition to their initialiser (not the variables in `keep`)."""
     hops = 0
     while hops < 10:
         n = fn.sn(nid)
-        if n is None or n.get('k') != 'var' or n.get('vk') != 'local' or n.get('d') in keep:
+        x, h2 = n, 0
+        while x is not None and x.get('k') == 'construct' and (x.get('copymove') or x.get('elidable') or '_iterator' in x.get('rclsT', '')) \
+                and len(x.get('args', [])) == 1 and h2 < 3:
+            x = fn.sn(x['args'][0])
+            h2 += 1
+        if x is None or x.get('k') != 'var' or x.get('vk') != 'local' or x.get('d') in keep or _reassigned(fn, x['d']):
             return nid
-        ent = local_decl(fn, n['d'])
+        ent = local_decl(fn, x['d'])
         if ent is None or not isinstance(ent[1].get('init'), int):
             return nid
         nid = ent[1]['init']
